@@ -147,19 +147,22 @@ def decCounts : Nat → Objects → Option ObjId → Option Objects
       decCounts fuel (os.set id (.dict pt')) ((Dict.get pt' PARENT).bind Obj.asRef)
     | _ => some os
 
+/-- one iteration of `delete_pages`: delete page number `n` (of the page list taken at entry), then
+decrement the `Count` of its ancestors -/
+def deletePage1 (pages : List ObjId) (d : Doc) (n : Nat) : Option Doc :=
+  match (if n = 0 then none else pages[n - 1]?) with
+  | none => some d
+  | some pid =>
+    match deleteObject d pid with
+    | (d', some page) =>
+      let parent := (page.asDict.bind fun pd => Dict.get pd PARENT).bind Obj.asRef
+      (decCounts (d'.objects.length + 1) d'.objects parent).map fun os => { d' with objects := os }
+    | (d', none) => some d'
+
 /-- `Document::delete_pages` -/
 def deletePages (d : Doc) (nums : List Nat) : Option Doc :=
   let pages := pageIter d.trailer d.objects
-  nums.foldl (fun (acc : Option Doc) n =>
-    acc.bind fun d =>
-      match (if n = 0 then none else pages[n - 1]?) with
-      | none => some d
-      | some pid =>
-        match deleteObject d pid with
-        | (d', some page) =>
-          let parent := (page.asDict.bind fun pd => Dict.get pd PARENT).bind Obj.asRef
-          (decCounts (d'.objects.length + 1) d'.objects parent).map fun os => { d' with objects := os }
-        | (d', none) => some d') (some d)
+  nums.foldl (fun (acc : Option Doc) n => acc.bind fun d => deletePage1 pages d n) (some d)
 
 /-- id of the last object of a reference chain (`dereference`'s first component, or the start id) -/
 def derefIdAux (os : Objects) : Nat → ObjId → Obj → Option ObjId
@@ -171,35 +174,46 @@ def derefIdAux (os : Objects) : Nat → ObjId → Obj → Option ObjId
       | n + 1 => derefIdAux os n (a, b) o'
   | _, cur, _ => some cur
 
+/-- `get_object_mut(id)`: the id whose object is finally borrowed (last id of the reference chain) -/
+def objectMutId (os : Objects) (id : ObjId) : Option ObjId :=
+  (os.get id).bind fun o => derefIdAux os Gen.DEREF_LIMIT id o
+
+/-- `self.get_object_mut(id).and_then(Object::as_dict_mut)` followed by `dict.set(key, value)` -/
+def setDictEntry (d : Doc) (id : ObjId) (key : Bytes) (v : Obj) : Doc × Out :=
+  match objectMutId d.objects id with
+  | none => (d, .err)
+  | some target =>
+    match d.objects.get target with
+    | some (.dict pd) => ({ d with objects := d.objects.set target (.dict (Dict.set pd key v)) }, .unit)
+    | _ => (d, .err)
+
+/-- the current content list as `add_page_contents` reads it -/
+def contentsList (page : Dict) : List Obj :=
+  match Dict.get page CONTENTS with
+  | some (.ref n g) => [.ref n g]
+  | some (.arr a) => a
+  | _ => []
+
+/-- `Document::add_object` -/
+def addObject (d : Doc) (o : Obj) : Doc := { d with maxId := d.maxId + 1, objects := d.objects.insert (d.maxId + 1, 0) o }
+
+/-- `Stream::new(dict, content)` -/
+def streamNew (dict : Dict) (content : Bytes) : Obj := .stream (Dict.set dict LENGTHE (.int content.length)) content
+
 /-- `Document::add_page_contents` -/
 def addPageContents (d : Doc) (pageId : ObjId) (content : Bytes) : Outcome (Doc × Out) :=
   match getDictionary d.objects pageId with
   | none => .ok (d, .err)
   | some page =>
-    let list : List Obj := match Dict.get page CONTENTS with
-      | some (.ref n g) => [.ref n g]
-      | some (.arr a) => a
-      | _ => []
     if d.maxId + 1 > U32_MAXE then .panic "add" else
-    let nid : ObjId := (d.maxId + 1, 0)
-    let os1 := d.objects.insert nid (.stream [(LENGTHE, .int content.length)] content)
-    let d1 := { d with objects := os1, maxId := d.maxId + 1 }
-    match os1.get pageId with
-    | none => .ok (d1, .err)
-    | some o =>
-      match derefIdAux os1 Gen.DEREF_LIMIT pageId o with
-      | none => .ok (d1, .err)
-      | some target =>
-        match os1.get target with
-        | some (.dict pd) => .ok ({ d1 with objects := os1.set target (.dict (Dict.set pd CONTENTS (.arr (list ++ [.ref nid.1 nid.2])))) }, .unit)
-        | _ => .ok (d1, .err)
+    .ok (setDictEntry (addObject d (streamNew [] content)) pageId CONTENTS
+          (.arr (contentsList page ++ [.ref (d.maxId + 1) 0])))
 
 /-- one editing call -/
 def step (d : Doc) : Op → Outcome (Doc × Out)
   | .newId => if d.maxId + 1 > U32_MAXE then .panic "add" else .ok ({ d with maxId := d.maxId + 1 }, .id (d.maxId + 1, 0))
-  | .add o => if d.maxId + 1 > U32_MAXE then .panic "add" else
-      .ok ({ d with maxId := d.maxId + 1, objects := d.objects.insert (d.maxId + 1, 0) o }, .id (d.maxId + 1, 0))
-  | .set id o => .ok ({ d with objects := d.objects.insert id o }, .unit)
+  | .add o => if d.maxId + 1 > U32_MAXE then .panic "add" else .ok (addObject d o, .id (d.maxId + 1, 0))
+  | .set id o => .ok ({ d with maxId := max d.maxId id.1, objects := d.objects.insert id o }, .unit)
   | .del id => let r := deleteObject d id; .ok (r.1, .obj r.2)
   | .prune => let r := pruneObjects d; .ok (r.1, .ids r.2)
   | .delZero => let r := deleteZeroLengthStreams d; .ok (r.1, .ids r.2)
